@@ -65,6 +65,11 @@ func genPubSubSessions(t *rapid.T, realm string, requireLocalAuth bool, nmin, nm
 		if rapid.Bool().Draw(t, "hasTeam") {
 			s.Hello = append(s.Hello, KV{"team", VStr(pick(t, []string{"p", "q"}, "team"))})
 		}
+		if pct(t, 12, "smuggle") {
+			// a client-chosen authrole (or authmethod) in HELLO never counts: filters see
+			// the identity the router assigned in WELCOME
+			s.Hello = append(s.Hello, KV{pick(t, []string{"authrole", "authrole", "authmethod"}, "smk"), VStr(pick(t, []string{"r1", "r2", "trusted", "anonymous"}, "smv"))})
+		}
 		if i > 1 && uni(t, 6, "late") == 0 {
 			s.NoJoin = true
 		}
